@@ -413,12 +413,8 @@ Proof.
   destruct (existsb is_pnamespace sig), (existsb is_pdatastore sig); reflexivity.
 Qed.
 
-(* ---------------------------------------------------------------- the interpreter side: text tie only *)
-
-(* the six interpret methods, interpret() and query() read as they did when Model/Query.v's interp,
-   interpret_stmt, run_stmts and run were written (translate/k_query.py: INTERPRETER_TEXT) *)
-Lemma bridge_interpreter_text : gen_interpreter_text_ok = true.
-Proof. reflexivity. Qed.
+(* the interpreter side (the six interpret methods, interpret(), query(), the decorator composition) is translated
+   by translate/k_query_interp.py and bridged in Bridge/BridgeQueryInterp.v *)
 
 (* ---------------------------------------------------------------- the generated code computes (non-vacuity) *)
 
